@@ -31,7 +31,8 @@ def shards(tier):
 def gates(c, tier):
     need = ["int-write", "int-read-padded", "int-read-random", "enum", "tag", "tag-multioctet", "len-long", "bool", "octets", "nest",
             "child-refuses-sibling", "reader-op-sequences", "writable-input", "truncated-with-header", "repo-tests-under-contracts:runs", "contract:_pack_asn1_integer", "contract:_read_asn1_integer", "contract:_pack_asn1",
-            "contract:_read_asn1_header", "contract:_pack_asn1_octet_number", "contract:_unpack_asn1_octet_number"]
+            "contract:_read_asn1_header"]  # the four primitives the repository's tests also name; the two octet-number helpers are
+    # checked when present (evidence) but may be renamed by a refactor without making this check inconclusive
     return [f"never exercised: {k}" for k in need if c.get(k, 0) == 0]
 
 
